@@ -103,13 +103,10 @@ int tcp_set_keepalive(struct tcp_opts *opts, int fd, bool keepalive)
     if (opts->keepalive == keepalive)
 	return 0;
 
-    opts->keepalive = keepalive;
-
-    if (fd < 0)
-	return 0;
-
-    if (effectuate_keepalive(fd, keepalive) < 0)
+    if (fd >= 0 && effectuate_keepalive(fd, keepalive) < 0)
 	return -1;
+
+    opts->keepalive = keepalive;
 
     return 0;
 }
@@ -124,11 +121,9 @@ int tcp_set_keepalive(struct tcp_opts *opts, int fd, bool keepalive)
 	    errno = EINVAL;						\
 	    return -1;							\
 	}								\
-	opts->optname = value;						\
-	if (fd < 0)							\
-	    return 0;							\
-	if (effectuate_ ## optname(fd, value) < 0)			\
+	if (fd >= 0 && effectuate_ ## optname(fd, value) < 0)		\
 	    return -1;							\
+	opts->optname = value;						\
 	return 0;							\
     }
 
